@@ -1071,7 +1071,7 @@ fn main() {
     assert_eq!(orders_table().len() as u64, N_ORDERS, "size of the enumerated (subset, ordering, category counts) table");
     runner::main(Spec {
         property: "C18",
-        rule: "layouts: exhaustive over p=1..6, every column plain or categorical with 1..3 categories (5460 layouts) x {f64,f32} x 3 value/index-order variants; orders: exhaustive over p<=4, every subset, every ordering of the index list, 1..3 categories (2968) x {f64,f32}; random: n 1..40, p 1..10, 1..6 categories, layouts none/all/first/last/first+last/adjacent-run/single/random-subset, shuffled index list, arbitrary codes 0..65535; unseen / noninteger: a random valid input with one categorical column made to hold an unseen code (transform) or a clearly non-integer value (fit); mapper: CategoryMapper over u16/String/i64/usize series of length 0..60. An encoder case is non-trivial when p >= 2 and some categorical column has >= 2 categories; error cases always are; a mapper case when it has >= 2 categories. Distinct = distinct hash of the materialised input",
+        rule: "layouts: exhaustive over p=1..6, every column plain or categorical with 1..3 categories (5460 layouts) x {f64,f32} x 3 value/index-order variants; orders: exhaustive over p<=4, every subset, every ordering of the index list, 1..3 categories (2968) x {f64,f32}; random: n 1..40, p 1..10, 1..6 categories, layouts none/all/first/last/first+last/adjacent-run/single/random-subset, shuffled index list, arbitrary codes 0..65535; unseen / noninteger: a random valid input with one categorical column made to hold an unseen code (transform) or a clearly non-integer value (fit); mapper: CategoryMapper over u16/String/i64/usize series of length 0..60. An encoder case is non-trivial when p >= 2 and some categorical column has >= 2 categories; error cases always are; a mapper case when it has >= 2 categories. Distinct = distinct hash of the materialised input; large: encoder columns with 65..280 categories on 300..600 rows, mappers over 65..300 categories; in one case of five another matrix (a narrower prefix or one row less) is transformed first, in one of five the transform is repeated and must be bit-identical",
         assumptions: vec![
             "category codes are non-negative integers <= 65535 (exactly representable in f32 and in the encoder's u16 category type)",
             "DenseMatrix<f64> and DenseMatrix<f32> only (other backends are C20's business)",
